@@ -94,6 +94,29 @@ CHECKS = {
              '(still-valid edits must list as the reference does); 2-4 input files in several orders must give the '
              'concatenation and the maximum status of the stand-alone runs.',
         note='Inputs the documents leave open are skipped (counted as ambiguous_skipped in the evidence).'),
+    'C11': dict(
+        category='fault_enumeration', design_ref='DESIGN.md section 2, C11',
+        technique='write-fault injection (RLIMIT_FSIZE at exact offsets, EPIPE via a 4 KiB pipe, /dev/full, obstructed output names) with an oracle over exit status, stderr and delivered bytes',
+        text='Every command of both tools with the output device refusing writes from byte n: all n in 0..L for short '
+             'outputs, else 0..8/0..64, every multiple of 4096 +-2, L-2..L+1 and random offsets (regular file + '
+             'RLIMIT_FSIZE with SIGXFSZ ignored), a minimal pipe whose reader leaves after n bytes (SIGPIPE ignored), '
+             '/dev/full; extract-files / extract-unused with RLIMIT_FSIZE below the largest output file, an output '
+             'name occupied by a directory, a symlink to /dev/full or a dangling symlink, and missing destinations.  '
+             'n < L requires non-zero status and a diagnostic; n >= L requires the fault-free result.  Release and '
+             'ASan+UBSan builds.',
+        note='A pipe offset is judged only when the output exceeds n + pipe capacity (some write is then certain to be '
+             'refused).  stderr is a pipe and never limited.'),
+    'C12': dict(
+        category='exploration', design_ref='DESIGN.md section 2, C12',
+        technique='file-system monitor: before/after content snapshot of a sandbox tree plus strace -e trace=%file on a sample',
+        text='Hostile catalogues (name and directory bytes over 0x01-0x7F incl. / .. - control and shell '
+             'metacharacters) extracted under several --dir settings into a destination 6 levels deep with decoy files '
+             'at every level (cwd elsewhere, destination given absolute/relative, with and without trailing slash); '
+             'every change must lie directly inside the destination, none may occur for non-extract commands, images '
+             'must stay byte-identical; a sample of runs is traced with strace and every creating/modifying/removing '
+             'system call is checked as well.',
+        note='The anonymous temporary file used for decompressing .gz images is whitelisted by its O_TMPFILE / '
+             'unlinked-temp signature.'),
 }
 
 PENDING_REASON = 'check not built yet in this revision of /verif (see DESIGN.md section 7 for the order of work)'
